@@ -266,7 +266,7 @@ theorem loops_unfold (T : EnglishTables) (body : List Item) (hasMax : Bool) (max
 theorem iter_count_runs (T : EnglishTables) (xs : List Int) (p : Nat) (o : Txt) (hasMax : Bool) (max : Nat) (hp : p ≤ xs.length) :
     Loops T bodyA hasMax max false ⟨xs.map .int, p, o⟩
       ⟨xs.map .int, p + (if hasMax then min max (xs.length - p) else xs.length - p),
-       o ++ ((xs.drop p).take (if hasMax then min max (xs.length - p) else xs.length - p)).flatMap showInt⟩ :=
+       o ++ ((xs.drop p).take (if hasMax then min max (xs.length - p) else xs.length - p)).flatMap (printInt T)⟩ :=
   ⟨(if hasMax then min max (xs.length - p) else xs.length - p) + 3,
     iter_count T xs _ _ p o hasMax max hp rfl (Nat.le_refl _)⟩
 
